@@ -80,9 +80,11 @@ Proof. unfold blank_feats. rewrite map_map. reflexivity. Qed.
 
 Lemma blank_idem m : blank (blank m) = blank m.
 Proof.
-  unfold blank, blank_h. cbn [y_mod y_ns y_imports h_name h_rev h_feats h_subs].
+  unfold blank, blank_h. cbn [y_mod y_ns y_imports y_subs y_deps h_name h_rev h_feats h_subs].
   rewrite blank_feats_idem, map_map.
-  f_equal. f_equal. apply map_ext. intros fs. apply blank_feats_idem.
+  assert (E : map (fun x => blank_feats (blank_feats x)) (h_subs (y_mod m)) = map blank_feats (h_subs (y_mod m)))
+    by (apply map_ext; intros fs; apply blank_feats_idem).
+  rewrite E. reflexivity.
 Qed.
 
 Lemma key_blank m : key_of (blank m) = key_of m.
@@ -149,7 +151,7 @@ Definition undescribe (y : yl) : list (bytes * option bytes * bool * list bytes)
 Definition visible (m : ymod) : Prop :=
   y_rev m <> Some [] /\ (y_impl m = false -> enabled_names (concat (groups (y_mod m))) = []).
 
-Lemma describe_module_obs m : y_impl m = true -> entry_obs (describe_module m) = obs_flat (y_mod m).
+Lemma describe_module_obs c m : y_impl m = true -> entry_obs (describe_module c m) = obs_flat (y_mod m).
 Proof.
   intros H. unfold entry_obs, describe_module, obs_flat, yl_features. cbn [ym_name ym_rev ym_features].
   rewrite H. unfold y_impl in H. rewrite H. reflexivity.
@@ -268,9 +270,11 @@ Proof.
 Qed.
 
 Lemma blank_eq_parts x m : blank x = blank m ->
-  blank_h (y_mod x) = blank_h (y_mod m) /\ y_ns x = y_ns m /\ y_imports x = y_imports m.
+  blank_h (y_mod x) = blank_h (y_mod m) /\ y_ns x = y_ns m /\ y_imports x = y_imports m /\
+  y_subs x = y_subs m /\ y_deps x = y_deps m.
 Proof.
-  intros H. split; [exact (f_equal y_mod H)|]. split; [exact (f_equal y_ns H)|exact (f_equal y_imports H)].
+  intros H. split; [exact (f_equal y_mod H)|]. split; [exact (f_equal y_ns H)|]. split; [exact (f_equal y_imports H)|].
+  split; [exact (f_equal y_subs H)|exact (f_equal y_deps H)].
 Qed.
 
 (* ------------------------------------------------------------------------------------------------ *)
@@ -322,6 +326,11 @@ Section Roundtrip.
   Hypothesis Hreq : forall m, In m s -> y_impl m = true -> y_rev m = None -> unamb (y_name m) None.
   Hypothesis Hreach : forall m, In m s -> y_impl m = false ->
     In (key_of m) (map key_of c0) \/ exists m0, In m0 s /\ y_impl m0 = true /\ reach m0 m.
+  (* augment / deviation statements go through imports of the module, and the context is settled: what an
+     implemented module augments or deviates is implemented *)
+  Hypothesis Hdeps_imp : forall m, In m s -> forall e, In e (y_deps m) -> In (fst e) (y_imports m).
+  Hypothesis Hdeps_impl : forall d, In d s -> y_impl d = true -> forall e, In e (y_deps d) ->
+    forall t, In t s -> denotes (fst e) t -> y_impl t = true.
   Hypothesis H0inv : Inv c0.
   Hypothesis H0closed : ClosedEx [] c0.
 
@@ -517,7 +526,7 @@ Section Roundtrip.
     set (names := enabled_names (concat (groups (y_mod m)))).
     assert (Hhas : fspec_ok (y_mod x) (F_list names) = true).
     { cbn [fspec_ok]. apply forallb_forall. intros n Hn.
-      destruct (blank_eq_parts x m (sub_blank x m Hs')) as (Hb1 & _ & _).
+      destruct (blank_eq_parts x m (sub_blank x m Hs')) as (Hb1 & _).
       rewrite <- has_feature_blank, Hb1, has_feature_blank. apply has_feature_enabled. exact Hn. }
     rewrite Hhas. cbn [negb].
     assert (Hden : negb (y_impl x) && existsb (fun x0 => named (fst (key_of m)) x0 && y_impl x0) c = false).
@@ -533,12 +542,13 @@ Section Roundtrip.
       congruence. }
     rewrite Hden.
     set (upd := fun x0 => if beq_key (key_of m) (key_of x0)
-                          then mkymod (apply_fspec (y_mod x0) true (F_list names)) (y_ns x0) (y_imports x0) else x0).
+                          then mkymod (apply_fspec (y_mod x0) true (F_list names)) (y_ns x0) (y_imports x0) (y_subs x0) (y_deps x0)
+                          else x0).
     assert (Hupd_x : upd x = m).
     { unfold upd. rewrite Hkx, beq_key_refl. cbn [apply_fspec].
       destruct (set_features_restore (y_mod m) Hi (Hfeat m Hm)) as [_ R2].
-      destruct (blank_eq_parts x m (sub_blank x m Hs')) as (Hb1 & Hb2 & Hb3).
-      rewrite <- set_features_blank, Hb1, Hb2, Hb3. fold names in R2. rewrite R2. destruct m; reflexivity. }
+      destruct (blank_eq_parts x m (sub_blank x m Hs')) as (Hb1 & Hb2 & Hb3 & Hb4 & Hb5).
+      rewrite <- set_features_blank, Hb1, Hb2, Hb3, Hb4, Hb5. fold names in R2. rewrite R2. destruct m; reflexivity. }
     assert (Hupd_o : forall y, In y c -> y <> x -> upd y = y).
     { intros y Hy Hne. unfold upd. destruct (beq_key (key_of m) (key_of y)) eqn:E; [|reflexivity].
       apply beq_key_eq in E. exfalso. apply Hne. apply (nodup_key_inj c); congruence. }
@@ -576,12 +586,88 @@ Section Roundtrip.
     - split; [reflexivity|]. rewrite <- E. rewrite E. apply Hreq; assumption.
   Qed.
 
+  Lemma sub_deps x m : sub x m -> y_deps x = y_deps m.
+  Proof. intros [H _]. exact (f_equal y_deps H). Qed.
+
+  (* the target of an augment / deviation statement of an entry that stands for d *)
+  Lemma target_key_spec c x d i k : Inv c -> In x c -> In d s -> sub x d -> In i (y_imports d) ->
+    target_key c i = Some k -> exists t, In t s /\ denotes i t /\ key_of t = k.
+  Proof.
+    intros Hinv Hx Hd Hs Hi Ht. destruct (Himp d Hd i Hi) as (m' & Hm' & Hden & _).
+    exists m'. split; [exact Hm'|]. split; [exact Hden|].
+    unfold target_key in Ht. destruct i as [n [r|]]; cbn [fst snd] in *; unfold denotes in Hden; cbn [fst snd] in Hden.
+    - destruct (find_key (n, Some r) c) as [y|] eqn:Ef; [|discriminate]. injection Ht as <-.
+      apply find_key_some in Ef. destruct Ef as [_ Hk]. congruence.
+    - destruct (filter (named n) c) as [|y [|z l]] eqn:Ef; try discriminate. injection Ht as <-.
+      assert (Hy : In y (filter (named n) c)) by (rewrite Ef; left; reflexivity).
+      apply filter_In in Hy. destruct Hy as [Hy Hny]. apply named_eq in Hny.
+      destruct (inv_key_in c y Hinv Hy) as (my & Hmy & _ & Hky).
+      destruct Hden as [Hn Hu]. destruct (key_name_rev _ _ Hky) as [Hn1 Hr1].
+      assert (Hrv : y_rev my = y_rev m') by (apply (Hu my (or_introl Hmy)); congruence).
+      unfold key_of. rewrite Hn, Hny, Hr1, Hrv. reflexivity.
+  Qed.
+
+  Lemma blank_mark x : blank (mkymod (apply_fspec (y_mod x) true F_keep) (y_ns x) (y_imports x) (y_subs x) (y_deps x)) = blank x.
+  Proof. destruct x as [[n r i fs ss] ns is sb dp]. reflexivity. Qed.
+
+  (* lys_implement of the targets: entries that stand for implemented modules of the original become implemented,
+     nothing else changes *)
+  Lemma implement_targets_spec : forall fuel c todo, Inv c ->
+    (forall k, In k todo -> exists t, In t s /\ key_of t = k /\ y_impl t = true) ->
+    let c' := implement_targets fuel c todo in
+    Inv c' /\ map key_of c' = map key_of c /\ (forall x, In x c -> y_impl x = true -> In x c') /\
+    (forall st, ClosedEx st c -> ClosedEx st c').
+  Proof.
+    induction fuel as [|fuel IH]; intros c todo Hinv Htodo; cbn [implement_targets].
+    { split; [exact Hinv|]. split; [reflexivity|]. split; auto. }
+    destruct todo as [|k r].
+    { split; [exact Hinv|]. split; [reflexivity|]. split; auto. }
+    assert (Hr : forall k0, In k0 r -> exists t, In t s /\ key_of t = k0 /\ y_impl t = true)
+      by (intros k0 Hk0; apply Htodo; right; exact Hk0).
+    destruct (find_key k c) as [x|] eqn:Ef; [|apply IH; assumption].
+    destruct (y_impl x) eqn:Hix; [apply IH; assumption|].
+    apply find_key_some in Ef. destruct Ef as [Hx Hkx].
+    destruct (Htodo k (or_introl eq_refl)) as (t & Ht & Hkt & Hit).
+    destruct Hinv as [Hnd Hinv'].
+    destruct (Hinv' x Hx) as (t' & Ht' & Hs').
+    assert (t' = t) as -> by (apply s_key_inj; try assumption; rewrite <- (sub_key x t' Hs'); congruence).
+    set (mk := fun y => if beq_key k (key_of y)
+                        then mkymod (apply_fspec (y_mod y) true F_keep) (y_ns y) (y_imports y) (y_subs y) (y_deps y) else y).
+    assert (Hmk_k : forall y, key_of (mk y) = key_of y) by (intros y; unfold mk; destruct (beq_key k (key_of y)); reflexivity).
+    assert (Hmk_i : forall y, y_imports (mk y) = y_imports y) by (intros y; unfold mk; destruct (beq_key k (key_of y)); reflexivity).
+    assert (Hkeys : map key_of (mark_impl k c) = map key_of c).
+    { unfold mark_impl. fold mk. rewrite map_map. apply map_ext. exact Hmk_k. }
+    assert (Hinv1 : Inv (mark_impl k c)).
+    { split; [rewrite Hkeys; exact Hnd|]. intros y' Hy'. unfold mark_impl in Hy'. fold mk in Hy'.
+      apply in_map_iff in Hy'. destruct Hy' as (y & <- & Hy). unfold mk.
+      destruct (beq_key k (key_of y)) eqn:E; [|apply Hinv'; exact Hy].
+      apply beq_key_eq in E. assert (y = x) as -> by (apply (nodup_key_inj c); congruence).
+      exists t. split; [exact Ht|]. split; [rewrite blank_mark; apply Hs'|]. split; [intros _; exact Hit|discriminate]. }
+    assert (Htodo1 : forall k0, In k0 (r ++ targets c x) -> exists t0, In t0 s /\ key_of t0 = k0 /\ y_impl t0 = true).
+    { intros k0 Hk0. apply in_app_iff in Hk0. destruct Hk0 as [Hk0|Hk0]; [apply Hr; exact Hk0|].
+      unfold targets in Hk0. apply in_flat_map in Hk0. destruct Hk0 as (e & He & Hk0).
+      destruct (target_key c (fst e)) as [k1|] eqn:Etk; [|destruct Hk0]. destruct Hk0 as [<-|[]].
+      rewrite (sub_deps x t Hs') in He.
+      destruct (target_key_spec c x t (fst e) k1 (conj Hnd Hinv') Hx Ht Hs' (Hdeps_imp t Ht e He) Etk) as (t0 & Ht0 & Hden & Hk1).
+      exists t0. split; [exact Ht0|]. split; [exact Hk1|]. apply (Hdeps_impl t Ht Hit e He t0 Ht0 Hden). }
+    specialize (IH (mark_impl k c) (r ++ targets c x) Hinv1 Htodo1). cbv zeta in IH.
+    destruct IH as (I1 & I2 & I3 & I4). split; [exact I1|]. split; [rewrite I2; exact Hkeys|]. split.
+    - intros y Hy Hiy. apply I3; [|exact Hiy]. unfold mark_impl. fold mk.
+      assert (E : mk y = y).
+      { unfold mk. destruct (beq_key k (key_of y)) eqn:E; [|reflexivity]. apply beq_key_eq in E.
+        assert (y = x) as -> by (apply (nodup_key_inj c); congruence). congruence. }
+      rewrite <- E. apply in_map. exact Hy.
+    - intros st Hcl. apply I4. intros y' Hy' Hns i Hii m1 Hm1 Hd1. unfold mark_impl in Hy'. fold mk in Hy'.
+      apply in_map_iff in Hy'. destruct Hy' as (y & <- & Hy). rewrite Hkeys. rewrite Hmk_k in Hns. rewrite Hmk_i in Hii.
+      apply (Hcl y Hy Hns i Hii m1 Hm1 Hd1).
+  Qed.
+
   (* ly_ctx_load_module for the entry of an implemented module m *)
   Lemma load_module_spec c m : Inv c -> ClosedEx [] c -> (forall k, In k (map key_of c0) -> In k (map key_of c)) ->
     In m s -> y_impl m = true ->
     exists c', load_module (S (length src)) src c (y_name m) (y_rev m) (F_list (yl_features m)) = Ok c' /\
                Inv c' /\ ClosedEx [] c' /\ (forall k, In k (map key_of c) -> In k (map key_of c')) /\ In m c' /\
-               (forall x, In x c -> key_of x <> key_of m -> In x c').
+               (forall x, In x c -> y_impl x = true -> key_of x <> key_of m -> In x c').
   Proof.
     intros Hinv Hcl H0 Hm Hi. unfold load_module.
     destruct (parse_load_spec (S (length src)) [] c (y_name m, y_rev m) m Hinv Hcl H0 Hm (request_denotes m Hm Hi))
@@ -590,17 +676,26 @@ Section Roundtrip.
     { intros k []. }
     rewrite E.
     destruct (set_implemented_spec (c ++ l) m Hinv1 Hm Hi Hin1) as (c' & E' & Hinv2 & Hin2 & Hkeys & Hkeep & _ & Hclk).
-    exists c'. split; [exact E'|]. split; [exact Hinv2|]. split; [apply Hclk; exact Hcl1|]. split; [|split; [exact Hin2|]].
-    - intros k Hk. rewrite Hkeys, map_app. apply in_app_iff. left. exact Hk.
-    - intros x Hx Hne. apply Hkeep; [|exact Hne]. apply in_app_iff. left. exact Hx.
+    rewrite E'. unfold implement_deps.
+    rewrite (find_key_nodup (key_of m) c' m (proj1 Hinv2) Hin2 eq_refl).
+    assert (Htodo : forall k, In k (targets c' m) -> exists t, In t s /\ key_of t = k /\ y_impl t = true).
+    { intros k Hk. unfold targets in Hk. apply in_flat_map in Hk. destruct Hk as (e & He & Hk).
+      destruct (target_key c' (fst e)) as [k1|] eqn:Etk; [|destruct Hk]. destruct Hk as [<-|[]].
+      destruct (target_key_spec c' m m (fst e) k1 Hinv2 Hin2 Hm (sub_refl_impl m Hi) (Hdeps_imp m Hm e He) Etk)
+        as (t0 & Ht0 & Hden & Hk1).
+      exists t0. split; [exact Ht0|]. split; [exact Hk1|]. apply (Hdeps_impl m Hm Hi e He t0 Ht0 Hden). }
+    destruct (implement_targets_spec (deps_fuel c' + length (y_deps m)) c' (targets c' m) Hinv2 Htodo) as (I1 & I2 & I3 & I4).
+    eexists. split; [reflexivity|]. split; [exact I1|]. split; [apply I4, Hclk, Hcl1|]. split; [|split; [apply I3; assumption|]].
+    - intros k Hk. rewrite I2, Hkeys, map_app. apply in_app_iff. left. exact Hk.
+    - intros x Hx Hix Hne. apply I3; [|exact Hix]. apply Hkeep; [|exact Hne]. apply in_app_iff. left. exact Hx.
   Qed.
 
-  Lemma rebuild_from_spec : forall ms c, (forall m, In m ms -> In m s /\ y_impl m = true) ->
+  Lemma rebuild_from_spec cx : forall ms c, (forall m, In m ms -> In m s /\ y_impl m = true) ->
     Inv c -> ClosedEx [] c -> (forall k, In k (map key_of c0) -> In k (map key_of c)) ->
-    exists c', rebuild_from (S (length src)) src c (map describe_module ms) = Ok c' /\
+    exists c', rebuild_from (S (length src)) src c (map (describe_module cx) ms) = Ok c' /\
                Inv c' /\ ClosedEx [] c' /\ (forall k, In k (map key_of c) -> In k (map key_of c')) /\
                (forall m, In m ms -> In m c') /\
-               (forall x, In x c -> ~ In (key_of x) (map key_of ms) -> In x c').
+               (forall x, In x c -> y_impl x = true -> ~ In (key_of x) (map key_of ms) -> In x c').
   Proof.
     induction ms as [|m ms IH]; intros c Hms Hinv Hcl H0.
     - exists c. cbn [map rebuild_from]. split; [reflexivity|]. split; [exact Hinv|]. split; [exact Hcl|].
@@ -620,8 +715,9 @@ Section Roundtrip.
           assert (m' = m) as <- by (apply s_key_inj; [apply Hms; right; exact Hm'|exact Hm|exact Hk']).
           apply Hin2. exact Hm'.
         * apply Hkeep2; assumption.
-      + intros x Hx Hn. apply Hkeep2.
-        * apply Hkeep1; [exact Hx|]. intros Ek. apply Hn. cbn [map]. left. symmetry. exact Ek.
+      + intros x Hx Hix Hn. apply Hkeep2.
+        * apply Hkeep1; [exact Hx|exact Hix|]. intros Ek. apply Hn. cbn [map]. left. symmetry. exact Ek.
+        * exact Hix.
         * intros Hin. apply Hn. cbn [map]. right. exact Hin.
   Qed.
 
@@ -629,7 +725,7 @@ Section Roundtrip.
     exists s', rebuild (describe cid s) src c0 = Ok s' /\ NoDup (map key_of s') /\ (forall x, In x s' <-> In x s).
   Proof.
     unfold rebuild, describe. cbn [yl_modules].
-    destruct (rebuild_from_spec (filter y_impl s) c0) as (c' & E & Hinv & Hcl & Hk & Hin & _).
+    destruct (rebuild_from_spec s (filter y_impl s) c0) as (c' & E & Hinv & Hcl & Hk & Hin & _).
     { intros m Hm. apply filter_In in Hm. exact Hm. }
     { exact H0inv. }
     { exact H0closed. }
@@ -689,6 +785,11 @@ Record rt_ok (src : list ymod) (s c0 : ctx) (rk : mkey -> nat) : Prop := mk_rt_o
   rt_reach : forall m, In m s -> y_impl m = false ->
     In (key_of m) (map key_of c0) \/ exists m0, In m0 s /\ y_impl m0 = true /\ reach src s m0 m;
   (* the rebuild starts from modules of the context (their final or their freshly parsed state) *)
+  (* augment / deviation statements go through imports of the module, and the original context is settled: what an
+     implemented module augments or deviates is implemented *)
+  rt_deps_imp : forall m, In m s -> forall e, In e (y_deps m) -> In (fst e) (y_imports m);
+  rt_deps_impl : forall d, In d s -> y_impl d = true -> forall e, In e (y_deps d) ->
+    forall t, In t s -> denotes src s (fst e) t -> y_impl t = true;
   rt_c0_inv : Inv s c0;
   rt_c0_closed : ClosedEx src s [] c0
 }.
@@ -698,8 +799,8 @@ Theorem yanglib_roundtrip src s c0 rk cid : rt_ok src s c0 rk ->
              (forall x, In x s' <-> In x s) /\
              (forall h, In h (ctx_obs s') <-> In h (ctx_obs s)).
 Proof.
-  intros [H1 H2 H3 H4 H5 H6 H7 H8 H9 H10 H11 H12].
-  destruct (roundtrip_section src s c0 rk H1 H2 H3 H4 H5 H6 H7 H8 H9 H10 H11 H12 cid) as (s' & E & Hnd & Hiff).
+  intros [H1 H2 H3 H4 H5 H6 H7 H8 H9 H10 H13 H14 H11 H12].
+  destruct (roundtrip_section src s c0 rk H1 H2 H3 H4 H5 H6 H7 H8 H9 H10 H13 H14 H11 H12 cid) as (s' & E & Hnd & Hiff).
   exists s'. split; [exact E|]. split; [exact Hnd|]. split; [exact Hiff|].
   intros h. unfold ctx_obs. rewrite !in_map_iff. split; intros (x & Hx & Hin); exists x; (split; [exact Hx|]); apply Hiff; exact Hin.
 Qed.
@@ -723,10 +824,10 @@ Definition e_ns (n : bytes) : bytes := [117;114;110;58] ++ n.    (* urn:<name> *
 
 Definition e_X (impl en : bool) : ymod :=
   mkymod (mkhmod e_x (Some e_r20) impl [mkfeat [102] en; mkfeat [103] false] [[mkfeat [104] en]]) (e_ns e_x)
-         [(e_a, Some e_r19); (e_b, None)].
-Definition e_A19 : ymod := mkymod (mkhmod e_a (Some e_r19) false [mkfeat [102] false] []) (e_ns e_a) [(e_b, None)].
-Definition e_A20 : ymod := mkymod (mkhmod e_a (Some e_r20) false [] []) (e_ns e_a) [].
-Definition e_B : ymod := mkymod (mkhmod e_b None false [] []) (e_ns e_b) [].
+         [(e_a, Some e_r19); (e_b, None)] [([120;45;115;49], Some e_r20)] [].
+Definition e_A19 : ymod := mkymod (mkhmod e_a (Some e_r19) false [mkfeat [102] false] []) (e_ns e_a) [(e_b, None)] [] [].
+Definition e_A20 : ymod := mkymod (mkhmod e_a (Some e_r20) false [] []) (e_ns e_a) [] [] [].
+Definition e_B : ymod := mkymod (mkhmod e_b None false [] []) (e_ns e_b) [] [] [].
 
 Definition e_src : list ymod := [e_X false false; e_A19; e_A20; e_B].
 Definition e_s : ctx := [e_X true true; e_A19; e_B].
@@ -767,6 +868,8 @@ Proof.
         [left; reflexivity|right; left; reflexivity|unfold denotes; simpl; reflexivity|apply reach_refl].
     + eapply reach_step with (i := (e_b, None)) (m' := e_B);
         [right; left; reflexivity|right; right; left; reflexivity|split; [reflexivity|exact e_unamb_b]|apply reach_refl].
+  - intros m Hm e He. unfold e_s in Hm. in_cases; destruct He.
+  - intros d Hd _ e He. unfold e_s in Hd. in_cases; destruct He.
   - exact HI.
   - exact HC.
 Qed.
@@ -777,7 +880,7 @@ Proof. apply e_rt_ok_c0; [split; [constructor|intros x []]|intros x []]. Qed.
 (* a populated rebuilding context: x is already implemented with another feature state (f, h off, g on) *)
 Definition e_Xpre : ymod :=
   mkymod (mkhmod e_x (Some e_r20) true [mkfeat [102] false; mkfeat [103] true] [[mkfeat [104] false]]) (e_ns e_x)
-         [(e_a, Some e_r19); (e_b, None)].
+         [(e_a, Some e_r19); (e_b, None)] [([120;45;115;49], Some e_r20)] [].
 Definition e_c0pre : ctx := [e_Xpre; e_A19; e_B].
 
 Lemma e_rt_ok_pre : rt_ok e_src e_s e_c0pre e_rk.
@@ -813,7 +916,7 @@ Proof. vm_compute. reflexivity. Qed.
 
 (* an import without revision-date of a module with two revisions is outside the model *)
 Lemma e_unmodelled :
-  rebuild (describe [] [e_X true true]) [mkymod (y_mod (e_X false false)) (e_ns e_x) [(e_a, None)]; e_A19; e_A20] [e_A19]
+  rebuild (describe [] [e_X true true]) [mkymod (y_mod (e_X false false)) (e_ns e_x) [(e_a, None)] [] []; e_A19; e_A20] [e_A19]
   = Err E_UNMODELLED.
 Proof. vm_compute. reflexivity. Qed.
 
@@ -1341,3 +1444,154 @@ Lemma includes_order_examples :
   includes_order true [[1]; [2]; [3]; []]%nat = Err E_SUB11 /\
   includes_order true [[3; 1; 2]; [2]; []; [1; 2]]%nat = Ok [3; 1; 2]%nat.
 Proof. repeat split; vm_compute; reflexivity. Qed.
+
+(* ------------------------------------------------------------------------------------------------ *)
+(* submodule entries and deviation lists of the description                                          *)
+(* ------------------------------------------------------------------------------------------------ *)
+Lemma describe_submodules c m :
+  ym_submodules (describe_module c m) = y_subs m /\ yi_submodules (describe_imponly m) = y_subs m.
+Proof. split; reflexivity. Qed.
+
+(* the submodule entries of a module given by its submodule graph: [sinfo j] = name and revision of submodule j;
+   the includes array (y_subs) is [map sinfo] of the order that lysp_load_submodules produces.  Every submodule of
+   the include closure is described exactly once, with its revision, and nothing else is. *)
+Theorem described_submodules_spec incs v11 (sinfo : nat -> bytes * option bytes) :
+  wf_incs incs -> NoDup (inc_of incs O) -> (forall i j, fst (sinfo i) = fst (sinfo j) -> i = j) ->
+  match includes_order v11 incs with
+  | Ok order =>
+      NoDup (map fst (map sinfo order)) /\
+      (forall j, sreach incs j -> In (sinfo j) (map sinfo order)) /\
+      (forall e, In e (map sinfo order) -> exists j, sreach incs j /\ e = sinfo j)
+  | Err _ => v11 = true
+  end.
+Proof.
+  intros Hwf Hnd Hinj. pose proof (includes_order_spec incs Hwf false v11 Hnd) as H.
+  change (includes_order v11 incs) with (includes_order_gen false v11 incs).
+  destruct (includes_order_gen false v11 incs) as [order|e]; [|exact H].
+  destruct H as (H1 & H2 & H3). split; [|split].
+  - rewrite map_map. clear H2 H3. induction order as [|i order IH]; cbn; [constructor|].
+    inversion H1 as [|? ? Hi Hr]; subst. constructor; [|apply IH; exact Hr].
+    intros Hin. apply in_map_iff in Hin. destruct Hin as (j & Hj & Hjin). apply Hinj in Hj. subst j. contradiction.
+  - intros j Hj. apply in_map. apply (H3 eq_refl). exact Hj.
+  - intros e He. apply in_map_iff in He. destruct He as (j & <- & Hj). exists j. split; [apply H2; exact Hj|reflexivity].
+Qed.
+
+(* the deviation list of an implemented module names exactly the implemented modules of the context that deviate
+   it (the modules lys_implement registers in its deviated_by); other modules have none *)
+Theorem describe_deviations_spec c m :
+  (y_impl m = true -> forall n, In n (ym_deviations (describe_module c m)) <->
+     exists d, In d c /\ y_impl d = true /\ deviates d m = true /\ y_name d = n) /\
+  (y_impl m = false -> ym_deviations (describe_module c m) = []).
+Proof.
+  unfold describe_module, yl_deviations. cbn [ym_deviations]. split; intros Hi; rewrite Hi; [|reflexivity].
+  intros n. rewrite in_map_iff. split.
+  - intros (d & Hn & Hd). apply filter_In in Hd. destruct Hd as [Hd Hb]. apply andb_true_iff in Hb.
+    exists d. repeat split; try assumption; apply Hb.
+  - intros (d & Hd & Hid & Hdev & Hn). exists d. split; [exact Hn|]. apply filter_In. split; [exact Hd|].
+    rewrite Hid, Hdev. reflexivity.
+Qed.
+
+Lemma no_deps_no_deviations c m : (forall d, In d c -> y_deps d = []) -> yl_deviations c m = [].
+Proof.
+  intros H. unfold yl_deviations. destruct (y_impl m); [|reflexivity].
+  replace (filter (fun d => y_impl d && deviates d m) c) with (@nil ymod); [reflexivity|].
+  symmetry. induction c as [|d c IH]; [reflexivity|]. cbn [filter].
+  unfold deviates at 1. rewrite (H d (or_introl eq_refl)). cbn [existsb]. rewrite andb_false_r.
+  apply IH. intros d' Hd'. apply H. right. exact Hd'.
+Qed.
+
+(* two module entries say the same: all leaves equal, the deviation leaf-list (ordered by the system) as a set *)
+Definition entry_same (e e' : yl_module) : Prop :=
+  ym_name e = ym_name e' /\ ym_rev e = ym_rev e' /\ ym_ns e = ym_ns e' /\ ym_features e = ym_features e' /\
+  ym_submodules e = ym_submodules e' /\ forall n, In n (ym_deviations e) <-> In n (ym_deviations e').
+
+Lemma deviations_same_set c c' m : (forall x, In x c' <-> In x c) ->
+  forall n, In n (yl_deviations c' m) <-> In n (yl_deviations c m).
+Proof.
+  intros Hiff n. unfold yl_deviations. destruct (y_impl m); [|tauto].
+  rewrite !in_map_iff. split; intros (d & Hn & Hd); apply filter_In in Hd; destruct Hd as [Hd Hb]; exists d;
+    (split; [exact Hn|]); apply filter_In; (split; [apply Hiff; exact Hd|exact Hb]).
+Qed.
+
+(* describe after rebuild after describe = describe: the rebuilt context has the same module records, so its
+   description has the same import-only-module entries and module entries that say the same (name, revision,
+   namespace, features, submodules, deviations) *)
+Theorem describe_rebuild_describe src s c0 rk cid : rt_ok src s c0 rk ->
+  exists s', rebuild (describe cid s) src c0 = Ok s' /\
+    (forall e, In e (yl_imponly (describe cid s')) <-> In e (yl_imponly (describe cid s))) /\
+    (forall e, In e (yl_modules (describe cid s')) -> exists e', In e' (yl_modules (describe cid s)) /\ entry_same e e') /\
+    (forall e, In e (yl_modules (describe cid s)) -> exists e', In e' (yl_modules (describe cid s')) /\ entry_same e e').
+Proof.
+  intros Hok. destruct (yanglib_roundtrip src s c0 rk cid Hok) as (s' & E & _ & Hiff & _).
+  exists s'. split; [exact E|].
+  assert (Hiff' : forall x, In x s <-> In x s') by (intros x; symmetry; apply Hiff).
+  unfold describe. cbn [yl_modules yl_imponly]. split; [|split].
+  - intros e. rewrite !in_map_iff. split; intros (m & He & Hm); apply filter_In in Hm; destruct Hm as [Hm Hb]; exists m;
+      (split; [exact He|]); apply filter_In; (split; [apply Hiff; exact Hm|exact Hb]).
+  - intros e He. apply in_map_iff in He. destruct He as (m & <- & Hm). apply filter_In in Hm. destruct Hm as [Hm Hb].
+    exists (describe_module s m). split; [apply in_map; apply filter_In; split; [apply Hiff; exact Hm|exact Hb]|].
+    unfold entry_same, describe_module. cbn [ym_name ym_rev ym_ns ym_features ym_submodules ym_deviations].
+    repeat (split; [reflexivity|]). apply deviations_same_set. exact Hiff.
+  - intros e He. apply in_map_iff in He. destruct He as (m & <- & Hm). apply filter_In in Hm. destruct Hm as [Hm Hb].
+    exists (describe_module s' m). split; [apply in_map; apply filter_In; split; [apply Hiff; exact Hm|exact Hb]|].
+    unfold entry_same, describe_module. cbn [ym_name ym_rev ym_ns ym_features ym_submodules ym_deviations].
+    repeat (split; [reflexivity|]). apply deviations_same_set. exact Hiff'.
+Qed.
+
+(* the model computes: x deviates a, loading x implements a; the description of a lists x, the rebuild from the
+   description gives the same context *)
+Definition d_a : ymod := mkymod (mkhmod e_a (Some e_r19) false [] []) (e_ns e_a) [] [([97;45;115;49], None)] [].
+Definition d_x (impl : bool) : ymod :=
+  mkymod (mkhmod e_x None impl [] []) (e_ns e_x) [(e_a, None)] [] [((e_a, None), true)].
+Lemma e_deviation_roundtrip :
+  load_module 5 [d_x false; d_a] [] e_x None (F_list []) = Ok (settle [d_x true; d_a]) /\
+  y_impl (nth 1 (settle [d_x true; d_a]) d_a) = true /\
+  ym_deviations (describe_module (settle [d_x true; d_a]) (nth 1 (settle [d_x true; d_a]) d_a)) = [e_x] /\
+  rebuild (describe [] (settle [d_x true; d_a])) [d_x false; d_a] [] = Ok (settle [d_x true; d_a]).
+Proof. repeat split; vm_compute; reflexivity. Qed.
+
+(* the hypotheses of the round trip hold for a settled context with a deviation and an augment: x deviates a,
+   b augments a and imports x, a has a submodule; and the model computes the round trip *)
+Definition d_ai : ymod := mkymod (mkhmod e_a (Some e_r19) true [] []) (e_ns e_a) [] [([97;45;115;49], None)] [].
+Definition d_y (impl : bool) : ymod :=
+  mkymod (mkhmod e_b None impl [] []) (e_ns e_b) [(e_a, None); (e_x, None)] [] [((e_a, None), false)].
+Definition d_s : ctx := [d_y true; d_ai; d_x true].
+Definition d_src : list ymod := [d_y false; d_a; d_x false].
+Definition d_rk (k : mkey) : nat := if beq_bytes (fst k) e_b then 2 else if beq_bytes (fst k) e_x then 1 else 0.
+
+Lemma d_unamb_a : unamb d_src d_s e_a (Some e_r19).
+Proof. intros x Hx Hn. unfold d_s, d_src in Hx. in_cases; try reflexivity; cbn in Hn; discriminate. Qed.
+Lemma d_unamb_x : unamb d_src d_s e_x None.
+Proof. intros x Hx Hn. unfold d_s, d_src in Hx. in_cases; try reflexivity; cbn in Hn; discriminate. Qed.
+Lemma d_unamb_b : unamb d_src d_s e_b None.
+Proof. intros x Hx Hn. unfold d_s, d_src in Hx. in_cases; try reflexivity; cbn in Hn; discriminate. Qed.
+
+Lemma d_rt_ok : rt_ok d_src d_s [] d_rk.
+Proof.
+  constructor.
+  - cbn. repeat constructor; cbn; intuition discriminate.
+  - cbn. repeat constructor; cbn; intuition discriminate.
+  - intros m Hm. right. unfold d_s in Hm. in_cases.
+    + exists (d_y false). split; [left; reflexivity|split; reflexivity].
+    + exists d_a. split; [right; left; reflexivity|split; reflexivity].
+    + exists (d_x false). split; [right; right; left; reflexivity|split; reflexivity].
+  - intros m Hm i Hi. unfold d_s in Hm. in_cases; cbn in Hi; in_cases.
+    + exists d_ai. split; [right; left; reflexivity|]. split; [split; [reflexivity|exact d_unamb_a]|cbn; lia].
+    + exists (d_x true). split; [right; right; left; reflexivity|]. split; [split; [reflexivity|exact d_unamb_x]|cbn; lia].
+    + exists d_ai. split; [right; left; reflexivity|]. split; [split; [reflexivity|exact d_unamb_a]|cbn; lia].
+  - intros m Hm. unfold d_s in Hm. in_cases; cbn; lia.
+  - intros m Hm Hi. unfold d_s in Hm. in_cases; discriminate.
+  - intros m m' Hm Hm' _ _ Hn. unfold d_s in Hm, Hm'. in_cases; try reflexivity; cbn in Hn; discriminate.
+  - intros m Hm. unfold d_s in Hm. in_cases; cbn; constructor.
+  - intros m Hm _ Hr. unfold d_s in Hm. in_cases; try discriminate; [exact d_unamb_b|exact d_unamb_x].
+  - intros m Hm Hi. unfold d_s in Hm. in_cases; discriminate.
+  - intros m Hm e He. unfold d_s in Hm. in_cases; cbn in He; in_cases; cbn; auto.
+  - intros d Hd _ e He t Ht Hden. unfold d_s in Hd. in_cases; cbn in He; in_cases;
+      unfold denotes in Hden; cbn [fst snd] in Hden; destruct Hden as [Hn _]; unfold d_s in Ht; in_cases;
+      try reflexivity; cbn in Hn; discriminate.
+  - split; [constructor|intros x []].
+  - intros x [].
+Qed.
+
+Lemma d_rebuild : rebuild (describe [] d_s) d_src [] = Ok d_s /\ settle d_s = d_s.
+Proof. split; vm_compute; reflexivity. Qed.
